@@ -152,7 +152,11 @@ def service_type_name(type_: str, *, strict: bool = True) -> str:  # pylint: dis
         remaining = ['.'.join(remaining)]
 
     if remaining:
-        length = len(remaining[0].encode('utf-8'))
+        try:
+            length = len(remaining[0].encode('utf-8'))
+        except UnicodeEncodeError:
+            # a lone surrogate has no UTF-8 form, the label can never be sent
+            raise BadTypeInNameException("Not encodable as UTF-8: %r" % remaining[0])
         if length > 63:
             raise BadTypeInNameException("Too long: '%s'" % remaining[0])
 
